@@ -6,7 +6,7 @@
     src/ocfl/validate/serde.rs after 2f36fc5) for one inventory position, [create_object_cdir]
     the content directory names create_object accepts.  No known-finding class is left: the
     five recorded classes were repaired in /repo (d88c1da, 031a721, bb69bb9, 2f36fc5) and every
-    theorem below is unconditional.  [rocfl_read_pos] / [validator_read_pos] are the HISTORICAL
+    theorem below is unconditional.  [main_read_pos_before_fix] / [val_read_pos_before_fix] are the HISTORICAL
     readers and occur only in the `C10_before_fix_...` notes.
     [escaped_version_name_token] is not a defect class of C10: it names the tokens (an escaped
     spelling of head / a version key, which rocfl never writes) on which the main reader still
@@ -187,13 +187,13 @@ Theorem C10_object_id_roundtrip : forall id t,
 Proof. exact create_object_id_roundtrip. Qed.
 Print Assumptions C10_object_id_roundtrip.
 
-(** ** historical notes: the readers BEFORE fixes bb69bb9 / 2f36fc5 ([rocfl_read_pos],
-    [validator_read_pos]: digests and paths, resp. nearly every position, behind a
+(** ** historical notes: the readers BEFORE fixes bb69bb9 / 2f36fc5 ([main_read_pos_before_fix],
+    [val_read_pos_before_fix]: digests and paths, resp. nearly every position, behind a
     borrowed-only type) violated the property; the same inputs are read back by the current
     readers (theorems above) *)
 Theorem C10_before_fix_escaped_file_name_wedged : exists dst src lp,
   cp_logical_path dst src = Ok lp /\ utf8_valid lp = true /\
-  rocfl_read_pos PLogicalPath (serde_escape lp) = None /\
+  main_read_pos_before_fix PLogicalPath (serde_escape lp) = None /\
   decode_string (serde_escape lp) = Some lp /\
   main_read_pos PLogicalPath (serde_escape lp) = Some lp.
 Proof.
@@ -204,12 +204,12 @@ Print Assumptions C10_before_fix_escaped_file_name_wedged.
 
 Theorem C10_before_fix_escape_class_always_wedged : forall dst src lp,
   cp_logical_path dst src = Ok lp -> needs_escape lp = true ->
-  rocfl_read_pos PLogicalPath (serde_escape lp) = None.
+  main_read_pos_before_fix PLogicalPath (serde_escape lp) = None.
 Proof. exact cp_wedge_before_fix. Qed.
 Print Assumptions C10_before_fix_escape_class_always_wedged.
 
 Theorem C10_before_fix_validator_refused_escaped_strings : forall p s,
-  (val_pos_borrowed p && needs_escape s) = true -> validator_read_pos p (serde_escape s) = None.
+  (val_pos_borrowed_before_fix p && needs_escape s) = true -> val_read_pos_before_fix p (serde_escape s) = None.
 Proof. exact validator_read_fails_before_fix. Qed.
 Print Assumptions C10_before_fix_validator_refused_escaped_strings.
 
@@ -257,12 +257,12 @@ Example C10_nonvacuous_positions :
   cp_logical_path (b "d/") (bs [97; 34; 92; 10; 1; 46; 116]) = Ok (bs [100; 47; 97; 34; 92; 10; 1; 46; 116]) /\
   main_read_pos PLogicalPath (serde_escape (bs [100; 47; 97; 34; 92; 10; 1; 46; 116])) = Some (bs [100; 47; 97; 34; 92; 10; 1; 46; 116]) /\
   val_read_pos PLogicalPath (serde_escape (bs [100; 47; 97; 34; 92; 10; 1; 46; 116])) = Some (bs [100; 47; 97; 34; 92; 10; 1; 46; 116]) /\
-  rocfl_read_pos PLogicalPath (serde_escape (bs [100; 47; 97; 34; 92; 10; 1; 46; 116])) = None /\
+  main_read_pos_before_fix PLogicalPath (serde_escape (bs [100; 47; 97; 34; 92; 10; 1; 46; 116])) = None /\
   (* an object id with a quote: fine in the main reader and (since 2f36fc5) in the validator *)
   create_object_id (bs [97; 34; 98]) = Ok (bs [97; 34; 98]) /\
   main_read_pos PId (serde_escape (bs [97; 34; 98])) = Some (bs [97; 34; 98]) /\
   val_read_pos PId (serde_escape (bs [97; 34; 98])) = Some (bs [97; 34; 98]) /\
-  validator_read_pos PId (serde_escape (bs [97; 34; 98])) = None /\
+  val_read_pos_before_fix PId (serde_escape (bs [97; 34; 98])) = None /\
   (* head / version keys: what rocfl writes is read; the escaped spelling "v" backslash "u0031" (other software) is
      refused by the main reader only; the hypothesis of C10_escaped_version_name_refused_by_main_reader is satisfiable *)
   pos_value_ok PHead (b "v1") = true /\ pos_value_ok PVersionKey (b "v0012") = true /\
